@@ -142,6 +142,7 @@ func c10ClientCase(e *c10Env, cw *c10World, pos c10Pos, plain bool, class, what 
 	e.x.r.Case(c10Key("cli", cw.name, pos.reqType, pos.occ, plain, what, rt.sent), true, class)
 	e.x.r.Distribution["position:"+name]++
 	e.x.r.Distribution["client-result:"+run.res]++
+	e.notePos(name, rt.cliAlloc, len(rt.wire)+rt.hdrBytes)
 	if rt.cliAlloc > e.maxCliAlloc {
 		e.maxCliAlloc, e.maxCliWhat = rt.cliAlloc, fmt.Sprintf("%s %s %s (%d bytes)", cw.name, name, what, len(rt.wire)+rt.hdrBytes)
 	}
